@@ -3,7 +3,7 @@ import os, json
 from . import common as C
 
 KIND = {"secret": "KSecret", "service": "KService", "endpoints": "KEndpoints", "policy": "KPolicy",
-        "appolicy": "KApPolicy", "aplogconf": "KApLogConf", "dos": "KDos"}
+        "appolicy": "KApPolicy", "aplogconf": "KApLogConf", "dos": "KDos", "dospolicy": "KDosPolicy", "doslogconf": "KDosLogConf"}
 
 
 _INTERN = None   # per cases file: string -> identifier (a string literal costs type-checking time per character)
@@ -88,12 +88,15 @@ def cq_cluster(c):
     cl, o = c["cluster"], c["obs"]
     pols = L(cq_policy(p) for p in o["pols"])
     secs = L(S(s["key"]) for s in (cl.get("secrets") or []) if s["ok"])
-    aps = L(cq_dep(a) for a in (cl.get("ap") or []) if a["ok"])
+    aps = L(cq_dep(a) for a in (cl.get("ap") or []) + (cl.get("doshops") or []) if a["ok"])
+    dos = L("(Build_dosprot %s %s %s %s %s)" % (S(d["ns"]), S(d["name"]), B(d["valid"]), S(d["policy"]), O(d["logconf"]))
+            for d in o.get("dosprot") or [])
     svcs = L("(%s, %s)" % (S(s["key"]), "SvcExternalName" if s["external"] else "SvcPods") for s in (cl.get("services") or []))
-    return "(Build_cluster %s %s %s %s)" % (pols, secs, aps, svcs)
+    return "(Build_cluster %s %s %s %s %s)" % (pols, secs, aps, svcs, dos)
 
 
-OP = {"add": "Add", "update": "Update", "update-irrelevant": "Update", "delete": "Delete"}
+OP = {"add": "Add", "update": "Update", "update-irrelevant": "Update", "update-invalid": "Update", "update-valid": "Update",
+      "delete": "Delete"}
 
 
 def events_of(o):
@@ -245,6 +248,8 @@ def positions(sk, kind, key):
         for i in ings:
             if i["dos"] is not None and qual(i["ns"], i["dos"]) == key:
                 out.add("ing-dos")
+    elif kind in ("dospolicy", "doslogconf"):
+        out.add("dos-hop")
     elif kind in ("appolicy", "aplogconf"):
         a = "ap_policy" if kind == "appolicy" else "ap_logconf"
         for i in ings:
